@@ -668,6 +668,12 @@ func oldValueHandled(c *Ctx, f *ssa.Function, st access, own map[*types.Var]bool
 			if fv, _ := asFieldAddr(x.Addr); fv != nil && own[fv] && fv != st.Field && isOld(x.Val) {
 				found, how = true, "the old value is moved into "+fv.Name()+" (transfer)"
 			}
+		case *ssa.Return:
+			for _, rv := range x.Results {
+				if isOld(rv) && !isExportedRoot(f) {
+					found, how = true, "the old value is returned to the caller, which takes over the reference"
+				}
+			}
 		}
 	})
 	return found, how
